@@ -1,9 +1,10 @@
 import Driver.OpsBits
 import Driver.OpsPackets
 import Driver.OpsXtce
+import Driver.OpsCli
 namespace Driver
 
-def handlers : List (String → List SExp → Option String) := [opsBits, opsPackets, opsXtce]
+def handlers : List (String → List SExp → Option String) := [opsBits, opsPackets, opsXtce, opsCli]
 
 def respond (line : String) : String :=
   match parseLine line with
